@@ -80,8 +80,11 @@ func suffOf(lx *big.Int) int {
 	return s
 }
 
-func mineChild(data []byte, target uint64, workers int) M {
-	spec, _ := json.Marshal(M{"data": vInts(data), "target": vLimbsU64(target), "workers": workers})
+func mineChild(data []byte, target uint64, workers int, prior interface{}) M {
+	if prior == nil {
+		prior = []interface{}{}
+	}
+	spec, _ := json.Marshal(M{"data": vInts(data), "target": vLimbsU64(target), "workers": workers, "prior": prior})
 	cmd := exec.Command(os.Args[0], "-test.run", "^TestVerifChild$", "-test.count=1")
 	cmd.Env = append(os.Environ(), "VERIF_CHILD_IN="+string(spec))
 	done := make(chan struct{})
@@ -124,6 +127,12 @@ func TestVerifChild(t *testing.T) {
 	data := vBytes(spec["data"])
 	target := vFromLimbs(spec["target"]).Uint64()
 	w := New(vIntOf(spec["workers"]))
+	// history: the same Worker mined other data (other lengths) for the same target score before
+	if pr, ok := spec["prior"].([]interface{}); ok {
+		for _, x := range pr {
+			w.Mine(context.Background(), vBytes(x), target)
+		}
+	}
 	nonce, err := w.Mine(context.Background(), data, target)
 	out := M{"ok": err == nil, "err": fmt.Sprint(err), "nonce": nonce8(nonce), "panic": ""}
 	b, _ := json.Marshal(out)
@@ -184,7 +193,7 @@ func runF(op string, in M) (M, M, M) {
 		data := vBytes(in["data"])
 		target := vFromLimbs(in["target"]).Uint64()
 		workers := vIntOf(in["workers"])
-		out := mineChild(data, target, workers)
+		out := mineChild(data, target, workers, in["prior"])
 		f := digestFacts(data)
 		f["blocks"], f["audit"] = []M{}, []M{}
 		if out["ok"] == true && workers == 1 && target > 0 {
@@ -335,7 +344,11 @@ func TestVerifDriver(t *testing.T) {
 			target = 1
 		}
 		workers := []int{1, 1, 1, 2, 4, 16}[r.Intn(6)]
-		emit("pow2.Mine", M{"data": vInts(data), "target": vLimbsU64(target), "workers": workers})
+		mineIn := M{"data": vInts(data), "target": vLimbsU64(target), "workers": workers}
+		if k%2 == 1 { // prior calls on the same Worker: a shorter and a longer message, same target
+			mineIn["prior"] = [][]int{vInts(make([]byte, len(data)/4)), vInts(make([]byte, 3*len(data)+40))}
+		}
+		emit("pow2.Mine", mineIn)
 		if k%9 == 0 {
 			emit("pow2.Mine", M{"data": vInts(data), "target": []int{}, "workers": 1})
 		}
